@@ -1,4 +1,5 @@
 import Gittuf.Props.C04
+import Gittuf.Props.C04b
 #print axioms Gittuf.RSL.C04_step_branch
 #print axioms Gittuf.RSL.C04_step_garbage
 #print axioms Gittuf.RSL.C04_step_number
@@ -18,3 +19,5 @@ import Gittuf.Props.C04
 #print axioms Gittuf.RSL.C04_F5_witness2
 #print axioms Gittuf.RSL.C04_F24_witness
 #print axioms Gittuf.RSL.C04_latest_asis_false
+#print axioms Gittuf.RSL.readyLog_run
+#print axioms Gittuf.RSL.C04_latest_refines_reachable
